@@ -315,13 +315,13 @@ class Table:
         if kwargs:
             selection = []
             for kw,arg in kwargs.items():
-                if isinstance(arg,dict): comparison = next(iter(arg.keys()))
-                if kw in self._indexes and comparison != "match" and not callable(arg):
+                kw_comparison = next(iter(arg.keys())) if isinstance(arg,dict) else comparison
+                if kw in self._indexes and kw_comparison != "match" and not callable(arg):
                     for lo,hi in self._lohis[kw]:
-                        for l,h in self._compare(lo,hi,self._data[kw],arg,comparison,"bisect"):
+                        for l,h in self._compare(lo,hi,self._data[kw],arg,kw_comparison,"bisect"):
                             selection.extend(range(l,h))
                 else:
-                    selection.extend(self._compare(0,len(self),self._data[kw],arg,comparison,"foreach"))
+                    selection.extend(self._compare(0,len(self),self._data[kw],arg,kw_comparison,"foreach"))
 
             if len(kwargs) > 1: selection=sorted(set(selection))
 
